@@ -278,6 +278,20 @@ func c06(c *Ctx) {
 		scs = append(scs, LifeScenario{Cause: "close", Closers: 1, Flood: true, Track: tr, ConnectAgain: "early"})
 		tags = append(tags, "connect-again")
 	}
+	// background handlers are not on the event loop: one that is still at work must not hold up the teardown, and one
+	// may itself call Close (a "!quit" command handled in the background)
+	for _, cause := range []string{"close", "eof", "cancel"} {
+		scs = append(scs, LifeScenario{Cause: cause, Closers: 1, Flood: true, BgBusy: true, InBacklog: c.R.N(4)})
+		tags = append(tags, "background-handler-busy-during-teardown")
+	}
+	scs = append(scs, LifeScenario{Cause: "close", Closers: 1, Flood: true, CloseFromBg: true}, LifeScenario{Cause: "close", Closers: 1, Flood: true, CloseFromBg: true, Reconnect: "goroutine", Cycles: 1})
+	tags = append(tags, "close-from-background-handler", "close-from-background-handler")
+	// a server that stays connected but silent (it never answers the client's PINGs) for many ping periods: whatever the
+	// client makes of that, a later Close / EOF must still complete, events fire once, and it can connect again
+	for _, cause := range []string{"close", "eof"} {
+		scs = append(scs, LifeScenario{Cause: cause, Closers: 1, Flood: true, PingFreqMs: 10, SilentMs: 400, Reconnect: "goroutine", Cycles: 1})
+		tags = append(tags, "silent-server-unanswered-pings")
+	}
 	runScenarios(c, "C06", scs, tags)
 }
 
@@ -364,6 +378,20 @@ func c07(c *Ctx) {
 		}
 		scs = append(scs, sc)
 		tags = append(tags, tag)
+	}
+	// background handlers are not on the event loop: one that is still at work must not hold up the teardown, and one
+	// may itself call Close (a "!quit" command handled in the background)
+	for _, cause := range []string{"close", "eof", "cancel"} {
+		scs = append(scs, LifeScenario{Cause: cause, Closers: 1, Flood: true, BgBusy: true, InBacklog: c.R.N(4)})
+		tags = append(tags, "background-handler-busy-during-teardown")
+	}
+	scs = append(scs, LifeScenario{Cause: "close", Closers: 1, Flood: true, CloseFromBg: true}, LifeScenario{Cause: "close", Closers: 1, Flood: true, CloseFromBg: true, Reconnect: "goroutine", Cycles: 1})
+	tags = append(tags, "close-from-background-handler", "close-from-background-handler")
+	// a server that stays connected but silent (it never answers the client's PINGs) for many ping periods: whatever the
+	// client makes of that, a later Close / EOF must still complete, events fire once, and it can connect again
+	for _, cause := range []string{"close", "eof"} {
+		scs = append(scs, LifeScenario{Cause: cause, Closers: 1, Flood: true, PingFreqMs: 10, SilentMs: 400, Reconnect: "goroutine", Cycles: 1})
+		tags = append(tags, "silent-server-unanswered-pings")
 	}
 	runScenarios(c, "C07", scs, tags)
 }
